@@ -29,12 +29,15 @@ def run(prop, tier):
         jobs.append(dict(src=SRC, atomic=a, args=["refs", "-p", p, "--", "j", "RUJU", "e"]))
         jobs.append(dict(src=SRC, atomic=a, args=["tls", "-p", p, "--", 2]))
     acc = mcsched.run_jobs(prop, tier, jobs)
+    extra = {}
+    if tier == "thorough" and not acc.viols:
+        extra = mcsched.conformance(acc, [j for j in jobs if j["args"][0] not in ("values", "barrier")])
     cov = mcsched.coverage(acc, "stateless DFS over all interleavings with <= %d preemptions of creator scripts over ref/unref/join x joinable/detached x thread bodies, "
                                 "exit codes {return,0,7,-3}, TLS set/replace/set/get by 2-3 threads racing on the first use of the key, foreign threads using p_uthread_current; "
                                 "thread start, body, exit and the exit-time TLS destructors run under the scheduler; oracles: tracking allocator (handle freed exactly once, "
                                 "only after the last reference, by the end), freed-memory poisoning + happens-before monitor (no touch after free, writes visible after join), "
                                 "join code, per-value destroy counters, one native key per PUThreadKey; non-trivial = executions that completed all oracles" % p)
-    return common.finish(prop, tier, "model_checking", acc, cov, mcsched.ASSUME, t0)
+    return common.finish(prop, tier, "model_checking", acc, cov, mcsched.ASSUME, t0, extra=extra)
 
 
 replay = mcsched.replay
